@@ -531,6 +531,12 @@ c.ensures('registers-exactly-the-jobs-involved', lambda c: (lambda y: ForAll([y]
           member(c.cur, c.a.self, y) == Or(member(c.pre, c.a.self, y), item_has(c.pre, c.a.job, y)),
           patterns=[member(c.cur, c.a.self, y)]))(q()), props=['C19'])
 c.ensures('returns-the-job', lambda c: c.result == c.a.job, props=['C19'])
+c.ensures('frame[elems]', lambda c: (lambda s: ForAll([s], Implies(
+    And(c.pre.alive(s), s != c.pre.f('jobs', c.a.self)), c.cur.elems(s) == c.pre.elems(s)),
+    patterns=[c.cur.elems(s)]))(q()))
+c.ensures('frame[lists]', lambda c: (lambda s: ForAll([s], Implies(c.pre.alive(s), And(
+    c.cur.llen(s) == c.pre.llen(s), Select(c.cur.H('$lat'), s) == Select(c.pre.H('$lat'), s))),
+    patterns=[c.cur.llen(s), Select(c.cur.H('$lat'), s)]))(q()))
 
 c = contract('PureScheduler.remove', FP).param('self').param('job').returns('ref')
 c.for_props('C19')
